@@ -65,8 +65,8 @@ Print Assumptions remainder_spec.
 (* UnalignedBitChunk::new when the addressed bytes fit in one u64 (ranges of up to 64 - offset%8 bits): for every
    buffer, pointer alignment, offset and length the constructor yields exactly one word whose bits [lead, lead+len)
    are the addressed bits and whose other bits are zero, with lead = offset mod 8 and trailing padding 64-(len+lead).
-   (The two-word and align_to cases are tied to the code by the correspondence suite c19.unaligned and by the
-   list-of-bool specifications of every iterator built on them; no theorem yet.) *)
+   (The align_to case — more than 16 addressed bytes — is tied to the code by the correspondence suite
+   c19.unaligned and by the list-of-bool specifications of every iterator built on it; no theorem yet.) *)
 Theorem unaligned_single_word_case : forall (bs : list N) (align off len : nat),
   wf_bytes bs -> (0 < len)%nat ->
   let lead := (off mod 8)%nat in
@@ -79,3 +79,19 @@ Theorem unaligned_single_word_case : forall (bs : list N) (align off len : nat),
       N.testbit p (N.of_nat i) = ((lead <=? i)%nat && (i <? lead + len)%nat && bit_at bs (8 * (off / 8) + i))%bool.
 Proof. exact unaligned_single_word. Qed.
 Print Assumptions unaligned_single_word_case.
+
+(* UnalignedBitChunk::new when the addressed bytes span 9..16 bytes: a prefix word masked below the lead padding and
+   a suffix word masked above the range; every bit is the addressed buffer bit or zero. *)
+Theorem unaligned_two_word_case : forall (bs : list N) (align off len : nat),
+  wf_bytes bs ->
+  let lead := (off mod 8)%nat in
+  let bytes_len := ((len + lead + 7) / 8)%nat in
+  (8 < bytes_len <= 16)%nat -> (off / 8 + bytes_len <= length bs)%nat ->
+  let u := ubc_new bs align off len in
+  u_lead u = N.of_nat lead /\ u_trail u = N.of_nat (128 - (len + lead)) /\ u_chunks u = [] /\
+  exists p q, u_prefix u = Some p /\ u_suffix u = Some q /\
+    forall i, (i < 64)%nat ->
+      N.testbit p (N.of_nat i) = ((lead <=? i)%nat && bit_at bs (8 * (off / 8) + i))%bool /\
+      N.testbit q (N.of_nat i) = ((64 + i <? lead + len)%nat && bit_at bs (8 * (off / 8) + 64 + i))%bool.
+Proof. exact unaligned_two_words. Qed.
+Print Assumptions unaligned_two_word_case.
